@@ -11,6 +11,10 @@ def build(run):
     event_entry.verify_event(run)
     outputfunc.verify_outputfunc(run)  # a handler that sends events must let a failed delivery (e.g. a refused recursion) escape
     event_send.verify_send(run)       # a filter veto returns False without calling dest.event: the destination guard is not touched
+    # "through any chain of blocks": a library block that passes events on must do so inside its own handler (synchronously), so that a
+    # loop closed through it meets the guard -- Repeat forwards the original event before it queues the repetitions (contract shared with C18)
+    from specs import c18   # noqa: F401  (registers the Repeat contracts)
+    run.verify('Repeat._event', cls='Repeat')
     from specs import fsm as fsmspec
     fsmspec.verify_fsm(run, what=('c03',))   # the documented exception: ONE chained transition per event; a second request is refused
 
